@@ -1,4 +1,5 @@
 import Lemmas.EngineChain
+import Lemmas.Batcher
 /-! C05 — the log is a gap-free hash chain in every schedule and after every restart.
 Statements are about the `Chain` component of model B (`Model/Engine/Chain.lean`): every event sequence it accepts
 — any interleaving of commits of any number of concurrent writers, any batch boundaries, store failures, crashes and
@@ -101,5 +102,77 @@ def l2' : LogE := { l0 with id := 2, txid := some 2, prevId := some 1 }
 example : (runOn step (reinit [l0]) [.committed 1 l1 1, .committed 2 l2 1, .gate 1 true, .crash, .committed 3 l2' 2, .gate 1 true]).toOption.map (·.durable.map (·.id))
     = some [0, 1, 2] := by decide
 example : ChainOK [l0] := by simp [ChainOK, idsOk, txOk, l0]
+
+end C05
+
+/-! ## The components between `commit` and the store: `batching.Batcher` + `job.Runner` (`Model/Batcher.lean`)
+
+The `Chain` component above takes "the entries reach `InsertLogs` in the order they were committed, each exactly once,
+cut into batches" as the behaviour of the batcher.  These theorems state it of the model of `batcher.go` / `jobs.go`
+itself: for EVERY operation sequence (append / the store call returns nil / returns an error / Close / Run), EVERY
+`maxBatchSize ≥ 1`, queues of any length.  `checks/batchlib.py` ties the model to the real `Batcher[int]` operation
+by operation (area `batcher`). -/
+namespace C05
+open Batcher
+
+/-- **ids without gaps or duplicates, in insertion order, at every batch boundary**: what the runner function
+(`InsertLogs`) has been handed so far — all batches, concatenated in hand-off order — is a PREFIX of what was appended:
+no object twice, none skipped, order kept -/
+theorem batches_concat_is_appended_prefix (max : Nat) (ops : List Op) :
+    (run max ops).batches.flatten <+: (run max ops).appended := by
+  have h := run_inv max ops
+  rw [h.handed, h.conserve]
+  exact ⟨_, rfl⟩
+
+/-- … and so is what was handed over up to any batch boundary -/
+theorem every_batch_boundary_is_a_prefix (max : Nat) (ops : List Op) (k : Nat) :
+    ((run max ops).batches.take k).flatten <+: (run max ops).appended := by
+  refine List.IsPrefix.trans ?_ (batches_concat_is_appended_prefix max ops)
+  refine ⟨((run max ops).batches.drop k).flatten, ?_⟩
+  rw [← List.flatten_append, List.take_append_drop]
+
+/-- every batch holds between 1 and `maxBatchSize` objects -/
+theorem batch_size_bounded (max : Nat) (hmax : 1 ≤ max) (ops : List Op) :
+    ∀ b ∈ (run max ops).batches, 1 ≤ b.length ∧ b.length ≤ max := by
+  have h := (run_inv max ops).sizes
+  have hm : (run max ops).max = max := runFrom_max _ ops
+  rw [hm] at h
+  exact h hmax
+
+/-- **nothing is lost while the loop is alive**: as long as `Run` has not been stopped and has not died, every
+appended object is persisted, in the batch in flight, or still queued — in that order —, everything persisted is
+acknowledged, and work is queued only behind a batch in flight (no missed wake-up) -/
+theorem no_item_lost_while_alive (max : Nat) (ops : List Op)
+    (h : (run max ops).phase = .fresh ∨ (run max ops).phase = .running) :
+    (run max ops).appended = (run max ops).persisted ++ (run max ops).flight ++ (run max ops).pending ∧
+    (run max ops).acked = (run max ops).persisted ∧
+    ((run max ops).phase = .running → (run max ops).pending ≠ [] → (run max ops).inflight.isSome = true) := by
+  have hi := run_inv max ops
+  obtain ⟨ha, hf⟩ := hi.live (by rcases h with h | h <;> simp [h]) (by rcases h with h | h <;> simp [h])
+  refine ⟨?_, ha, ?_⟩
+  · have := hi.conserve; rw [hf] at this; simpa using this
+  · intro hr hp
+    cases hfl : (run max ops).inflight with
+    | none => exact absurd (hi.idle hr hfl) hp
+    | some b => rfl
+
+/-- … and every one of them is eventually in a batch that is persisted: once every call in flight returns nil,
+at most (queue length + 1) returns later everything appended is persisted and acknowledged, in append order -/
+theorem every_item_eventually_persisted (max : Nat) (hmax : 1 ≤ max) (ops : List Op)
+    (hr : (run max ops).phase = .running) :
+    let s' := runFrom (run max ops) (List.replicate (load (run max ops)) .release)
+    s'.persisted = (run max ops).appended ∧ s'.acked = (run max ops).appended ∧ s'.pending = [] ∧ s'.inflight = none := by
+  have hm : (run max ops).max = max := runFrom_max _ ops
+  have := drain (load (run max ops)) (run max ops) (run_inv max ops) hr (by rw [hm]; exact hmax) (Nat.le_refl _)
+  exact ⟨this.2.2.1, this.2.2.2.1, this.1, this.2.1⟩
+
+/-! non-vacuity: a backlog of three entries behind a slow store call, `maxBatchSize = 2`: the batches are
+`[1] [2,3] [4]`; and five entries with `maxBatchSize = 2` drained by three returns -/
+example : ((run 2 [.start, .append 1, .append 2, .append 3, .append 4, .release, .release]).batches,
+           (run 2 [.start, .append 1, .append 2, .append 3, .append 4, .release, .release]).acked,
+           (run 2 [.start, .append 1, .append 2, .append 3, .append 4, .release, .release]).inflight)
+    = ([[1], [2, 3], [4]], [1, 2, 3], some [4]) := by decide
+example : (run 2 [.append 1, .append 2, .append 3, .append 4, .append 5, .start, .release, .release, .release]).persisted
+    = [1, 2, 3, 4, 5] := by decide
 
 end C05
